@@ -14,7 +14,7 @@ patch) and `meta.json` (what the machinery reported, written by `tools/seed_matr
 `/repo/include` - never to `/repo`).  The authors got the brief printed by `tools/seed_prompt.py`: the property's text and anchors, their own
 scratch worktree, nothing from `/verif`.  %d seeds so far; every one is caught.  "native family only" means the change alters a signature
 or a loop structure (the extracted unit no longer matches its recipe -> undecided -> the unit's replay families decide on the real code)
-or is a type-level change no contract reaches (C17b: thorough tier only).  Several seeds made me strengthen the machinery first - each
+or is a type-level change no contract reaches (thorough tier only, listed below).  Several seeds made me strengthen the machinery first - each
 such case is a unit, an obligation or a scenario that now exists:
 
 * C03a/C08b -> MEMBERINIT rule + `history_impl.member_init` units; `hist` scenario "first entry by a history event".
@@ -25,6 +25,15 @@ such case is a unit, an obligation or a scenario that now exists:
   occurrences (compiler-generated ones modelled) + limited-drain scenario in `copy`.  C17b -> three-level flag scenario in `block`.
 * C20b -> `IsInline` + converting-constructor units, over-aligned payloads in `poly`.  C04b -> C04 obligation on `exception_caught` + scenario.
   C01b -> structural (not text-anchored) ghost rewrite in `backmp11.do_process_event`.  C09b -> explicit-entry unit tolerant to direct id assignment.
+* c-wave: C03c -> C03 obligation on the running mark of every backmp11 entry path.  C06c -> constructor units of back/back11 (`ctor_back`).
+  C10c -> busy-mark obligation of `process_completion_transition` labelled C10.  C20c -> in-place invocation tolerated and labelled C20 in the
+  queue-drain units + circular-queue-at-capacity scenario.  C04c -> exact drain budget in the pool loop (ghost `g_nondef`).  C05c -> "every step
+  starts a new deferral cycle of the machine's own pool" + submachine action-defer scenario.  C01c -> constructor phase order of the
+  favor_compile_time table (`ctor_order` unit).  C14c -> `Internal<>` glue units + internal-row-defer scenario.  C19c -> policy-state obligations
+  on the rows without action.  C13c -> `sel` scenario "own internal table with several rows per event" (the contract caught it, no native
+  witness existed).  C16c -> `ser` scenario with front-end data of the CONTAINED machine (same).  C18c (type-level: forwarding rows) ->
+  `kleene` scenarios with exact / base / Kleene triggers inside a submachine - missed by both tiers before that.  C07c = C13b found again.
+* "thorough tier only" (type-level changes, no contract reaches them; the native families decide): C17b, C17c, C13b, C07c, C18c.
 
 ''' % n
 s = s[:i] + head + table + '\n' + s[j:]
